@@ -702,7 +702,11 @@ int main(int argc, char **argv) {
     if (CFG_CAT == 0) std::cout << "-";
     else std::cout << liveCount();
     std::cout << " # oracle=" << oracle << " faults=" << faultsStr() << " ev=" << G().ev.cc << "," << G().ev.mc << ","
-              << G().ev.ca << "," << G().ev.ma << "," << G().ev.dt << "," << G().ev.vi << "," << G().ev.ic << "\n";
+              << G().ev.ca << "," << G().ev.ma << "," << G().ev.dt << "," << G().ev.vi << "," << G().ev.ic << " maxsz=";
+    // what max_size() itself reports (C07: size() <= capacity() <= max_size())
+    for (int c = 0; c < gPool; ++c) std::cout << (c ? "," : "") << (unsigned long long)V(c)->max_size();
+    for (int c = 0; c < gPool2; ++c) std::cout << "," << (unsigned long long)W(c)->max_size();
+    std::cout << "\n";
     G().faults.clear();
     ++n;
   }
